@@ -292,7 +292,7 @@ EXPERIMENTAL = {
     "c07_bb_keymap_within", "c07_bb_anchors_within", "c07_bb_abandoned_within", "c07_bb_abandoned_nodelimit", "c07_bb_abandoned_depthlimit",
     "c07_bb_twodocs_within", "c07_bb_anchors_anchorlimit", "c07_bb_anchors_aliaslimit", "c07_bb_twodocs_eventlimit", "c07_bb_twodocs_anchorlimit",
     "c12_write_quoted_1", "c12_write_quoted_2", "c20_folded_block_3", "c20_folded_block_4",
-    "c17_coords_4", "c17_crop_window_2", "c17_crop_window_3", "c17_crop_window_4", "c17_source_window_2", "c17_source_window_3", "c17_source_window_4",
+    "c17_coords_4", "c17_crop_line_6", "c17_crop_window_2", "c17_crop_window_3", "c17_crop_window_4", "c17_source_window_2", "c17_source_window_3", "c17_source_window_4",
     "c19_precedence", "c19_parentheses", "c19_units", "c19_units_mixed_with_bare", "c19_tag_only", "c19_total_3", "c19_total_4",
 }
 
